@@ -40,10 +40,10 @@ PROPS = {
         "variants": REL,
         "budget_s": (30, 300),
         "min_nontrivial": {"quick": 500, "thorough": 5000},
-        "must_observe": ["variant_reencoded", "variant_history", "history_failed_run_with_validated_points"],
+        "must_observe": ["variant_reencoded", "variant_history", "history_failed_run_with_validated_points", "history_many_substring_views", "reclamation_programs"],
         "rule": PROG + "and directed operator programs over an env of non-canonical/boundary atoms. Baseline = fresh allocator, new_atom storage. Variants: every atom "
                 "re-encoded as forced-heap / substring view / concat result (incl. opcode, keyword, path and terminator atoms and the zero-length heap atom); allocator "
-                "pre-populated with random nodes, earlier successful and failed runs, runs that validated BLS points, add_validated_g1/g2, checkpoints; re-runs in the "
+                "pre-populated with random nodes, skewed table shapes (thousands of substring views, pairs or inline atoms, one huge atom), earlier successful and failed runs, runs that validated BLS points, add_validated_g1/g2, checkpoints; re-runs in the "
                 "same allocator; plain repeats. Result tree hash, cost and error variant+message must equal the baseline (limit errors excluded). Non-trivial: >=1 variant compared "
                 "and the run got past the first path lookup.",
         "assumptions": COMMON_ASSUMPTIONS,
@@ -175,10 +175,10 @@ PROPS = {
         "total": True,
         "exhaustive_key": "exhaustive_all_bytes",
         "min_nontrivial": {"quick": 5000, "thorough": 50000},
-        "must_observe": ["exhaustive_all_bytes", "exhaustive_dense_alphabet", "length_prefix_boundary_atoms", "accepted_by_all", "rejected_by_all"],
+        "must_observe": ["exhaustive_all_bytes", "exhaustive_dense_alphabet", "length_prefix_boundary_atoms", "parse_triples_flag_and_chunking_compared", "accepted_by_all", "rejected_by_all"],
         "rule": "EXHAUSTIVE: every byte string of length <=2 (quick) / <=3 (thorough) and every string over the dense token alphabet {ff,fe,80,00,01,7f,81,bf,c0,fb,fc,fd} up to length 6 (quick) / 7 (thorough); then atoms of every length at and around the length-prefix boundaries (0x3f/0x40, 0x1fff/0x2000, 0xfffff/0x100000) written with every prefix width that can hold the length (minimal and over-long) with the payload present, alone and inside a pair; valid serialisations mutated at token level, "
                 "inflated length prefixes, 100k-deep nesting and noise. Per input: node_from_stream, parse_triples(hashes on) and tree_hash_from_stream must all accept or all reject, consume the same length, describe the same tree (rebuilt from the triples) and "
-                "carry the model tree hash for every node; peak heap requested per decoder (counting global allocator) <= 2 MiB + 64*len; is_canonical_serialization == (whole input consumed AND re-serialisation reproduces it). ASan build repeats the workload. "
+                "carry the model tree hash for every node; parse_triples without hashes, and with/without hashes through a reader that returns 1-5 bytes per call, must accept the same inputs, return the same triples and consume the same length; peak heap requested per decoder (counting global allocator) <= 2 MiB + 64*len; is_canonical_serialization == (whole input consumed AND re-serialisation reproduces it). ASan build repeats the workload. "
                 "Non-trivial: input accepted by the decoders.",
         "assumptions": COMMON_ASSUMPTIONS,
     },
@@ -237,10 +237,10 @@ PROPS = {
         "py": "pymon.wheelmon C28",
         "budget_s": (25, 300),
         "min_nontrivial": {"quick": 5000, "thorough": 50000},
-        "must_observe": ["stream_decode_accepted", "stream_decode_rejected", "serializer_cases", "int_cases", "curry_cases", "triple_parser_cases", "boundary_atoms", "constructor:from_bytes(backrefs)", "compressed_blob_differs_from_classic"],
+        "must_observe": ["stream_decode_accepted", "stream_decode_rejected", "serializer_cases", "int_cases", "curry_cases", "triple_parser_cases", "boundary_atoms", "constructor:from_bytes(backrefs)", "compressed_blob_differs_from_classic", "near_miss_not_reported_as_curried"],
         "rule": "Rust log: classic decoder on every dense-alphabet string up to length 5, long-length-prefix probes, mutated/valid/random blobs; node_to_bytes of generated trees; new_number bytes for every integer in [-40000,40000), word boundaries and random big values. Python side: "
                 "sexp_from_stream must accept exactly the inputs node_from_bytes accepts and yield the same tree; sexp_to_bytes == node_to_bytes (plus atoms at every length-prefix boundary up to 1 MiB+1 against ser_legacy), also for the same tree built by every Program constructor (from_bytes of a classic / back-reference / 2026 blob, fromhex, parse, from_bytes_with_cursor, from_bytes_backrefs, from_bytes_2026) and serialised alone, through stream() and embedded in another tree; int_to_bytes/int_from_bytes == Rust; the pure-python triple parser "
-                "(native import disabled) == native; curry_hash == tree hash of curry, uncurry(curry(m,a)) == (m,a), and running the curried program == running the module with the arguments prepended. Non-trivial: accepted decoder inputs, serialiser/int/curry cases.",
+                "(native import disabled) == native; curry_hash == tree hash of curry, uncurry(curry(m,a)) == (m,a), for near misses of curried programs (one node replaced: keywords, the terminating 1, nil terminators, wrappers) uncurry may only report (m,a) when m.curry(*a) reproduces the program, and running the curried program == running the module with the arguments prepended. Non-trivial: accepted decoder inputs, serialiser/int/curry cases.",
         "assumptions": COMMON_ASSUMPTIONS + ["the Rust classic serialiser is reached through the wheel's ser_legacy where no Rust log exists (itself checked by C26)"],
     },
     "C29": {
@@ -317,7 +317,8 @@ PROPS = {
         "budget_s": (25, 300),
         "total": True,
         "min_nontrivial": {"quick": 5000, "thorough": 50000},
-        "rule": "Untyped random trees as programs, typed programs mutated 1-3 times, typed programs with big atoms, x random flag sets x budgets {0,1,10,1e4,1.1e7,1.1e10}; plus every ChiaDialect operator called "
+        "must_observe": ["directed_softfork_argument_cases", "directed_deep_recursion_cases"],
+        "rule": "Untyped random trees as programs, typed programs mutated 1-3 times, typed programs with big atoms, x random flag sets x budgets {0,1,10,1e4,1.1e7,1.1e10}; hostile spellings of the softfork cost/extension arguments under every strictness flag; non-tail recursion 1000-20000 levels deep with and without ENABLE_GC at budgets that end the run at various depths; plus every ChiaDialect operator called "
                 "directly on signature-aware, perturbed and completely arbitrary argument trees (sizes up to MBs). Oracle: catch_unwind + no EvalErr::InternalError; the same workload runs in release, "
                 "debug-assertion/overflow-check and AddressSanitizer builds (a dying shard process is a violation) and, thorough tier, a small no-BLS subset under Miri. Non-trivial: run got past the first path lookup / operator was reached.",
         "assumptions": COMMON_ASSUMPTIONS + ["hangs are reported as inconclusive (watchdog), never as violations"],
@@ -345,9 +346,9 @@ PROPS = {
         "variants": REL,
         "budget_s": (60, 480),
         "min_nontrivial": {"quick": 200, "thorough": 2000},
-        "must_observe": ["gc_restore_noreplace", "gc_restore_replace", "gc_restore_aborted"],
+        "must_observe": ["gc_restore_noreplace", "gc_restore_replace", "gc_restore_aborted", "deep_recursion_cases"],
         "rule": "Typed random ChiaDialect programs (GC-heavy profile: 0.3-2 KiB atoms, concat/sha256/strlen garbage inside "
-                "GC-candidate operators) plus directed programs forcing each MaybeRestore outcome; every case is run with "
+                "GC-candidate operators) plus directed programs forcing each MaybeRestore outcome and non-tail recursion 2000-12000 levels deep (up to ~36000 pending reclamation candidates); every case is run with "
                 "flags F and F|ENABLE_GC on identically prepared allocators (unlimited, and heap/atom/pair caps placed inside "
                 "the run's allocation need) at budgets {0, C, C-1, random}. A case is non-trivial when the allocated_* counters "
                 "of the two runs differ, i.e. GC really reclaimed memory. Limits are biased to the exact need, one short and one spare. A heap-only difference is attributed to the recorded finding only when it equals the difference "
